@@ -162,6 +162,22 @@ def writer_slots(repo: Repo, ci: ClassInfo, fn: ast.FunctionDef, helper: ClassIn
     slots: List[Slot] = []
     calls = [n for n in walk_no_nested(fn) if isinstance(n, ast.Call) and isinstance(n.func, ast.Attribute)]
     calls.sort(key=lambda c: (inline.pos(c), c.col_offset))
+    # locals that name a slot's value (`smp_num = self.note_samples.bytes[:96]; f.write(smp_num)`) are read as what they name
+    from .packed import single_defs, resolve_names
+    ldefs = {k: v for k, v in single_defs(fn).items() if k not in (wvar, fvar) and (
+        isinstance(v, (ast.Subscript, ast.BinOp)) or (isinstance(v, ast.Call) and isinstance(v.func, ast.Attribute) and v.func.attr in ("ljust", "rjust")))}
+    ldefs.pop(wvar, None)
+    if fvar:
+        ldefs.pop(fvar, None)
+    for c in calls:
+        if (norm(c.func.value) == wvar or (fvar is not None and norm(c.func.value) == fvar and c.func.attr == "write")) and c.args \
+                and any(isinstance(x, ast.Name) and x.id in ldefs for x in ast.walk(c.args[0])):
+            new_arg = resolve_names(c.args[0], ldefs)
+            ast.copy_location(new_arg, c.args[0])
+            for sub in ast.walk(new_arg):
+                if not hasattr(sub, "lineno"):
+                    ast.copy_location(sub, c.args[0])
+            c.args[0] = new_arg
     for c in calls:
         recv = norm(c.func.value)
         if recv == wvar:
